@@ -194,3 +194,63 @@ func (in *Interp) lenLowerBound1(xk string) (int64, string) {
 	}
 	return best, why
 }
+
+// CanonCmp brings a recorded integer comparison ("<(a,b)", "!>=(a,b)",
+// "<=(b,a)", …, as it appears in a condition log without the ":= value" part)
+// into one of two forms, "<(x,y)" or "!<(x,y)": however the source spells
+// "x is below y", the rules see one spelling. Anything else is returned as is.
+func CanonCmp(c string) string {
+	neg := false
+	for strings.HasPrefix(c, "!") && !strings.HasPrefix(c, "!=(") {
+		neg = !neg
+		c = c[1:]
+	}
+	op := ""
+	for _, o := range []string{"<=(", ">=(", "<(", ">("} {
+		if strings.HasPrefix(c, o) && strings.HasSuffix(c, ")") {
+			op = o[:len(o)-1]
+			break
+		}
+	}
+	if op == "" {
+		if neg {
+			return "!" + c
+		}
+		return c
+	}
+	inner := c[len(op)+1 : len(c)-1]
+	depth, cut := 0, -1
+	for i, ch := range inner {
+		switch ch {
+		case '(', '[', '{':
+			depth++
+		case ')', ']', '}':
+			depth--
+		case ',':
+			if depth == 0 && cut < 0 {
+				cut = i
+			}
+		}
+	}
+	if cut < 0 {
+		if neg {
+			return "!" + c
+		}
+		return c
+	}
+	a, b := inner[:cut], inner[cut+1:]
+	switch op {
+	case "<":
+	case ">":
+		a, b = b, a
+	case "<=": // a <= b  ==  !(b < a)
+		a, b = b, a
+		neg = !neg
+	case ">=": // a >= b  ==  !(a < b)
+		neg = !neg
+	}
+	if neg {
+		return "!<(" + a + "," + b + ")"
+	}
+	return "<(" + a + "," + b + ")"
+}
